@@ -498,9 +498,19 @@ class SSETransport(Transport):
                         # Try to parse response anyway
                         try:
                             response_data = response.json()
-                            await self._route_incoming_message(response_data)
                         except Exception:
-                            # Send error response
+                            response_data = None
+                        if (
+                            isinstance(response_data, dict)
+                            and response_data.get("id") is not None
+                            and str(response_data.get("id")) == message_id
+                            and ("result" in response_data or "error" in response_data)
+                        ):
+                            # The body is the JSON-RPC answer to this request
+                            await self._route_incoming_message(response_data)
+                        else:
+                            # Anything else (no body, text, a non-JSON-RPC error
+                            # document): the request still needs its terminal message
                             error_response = {
                                 "jsonrpc": "2.0",
                                 "id": message_id,
